@@ -105,8 +105,17 @@ def build_cfg(c: Dict) -> Dict:
         services=[sopt("database-service", backup_server_ip="192.168.1.11"), sopt("dns-server"), sopt("ntp-server")],
         applications=[{"type": "web-browser", "options": {"fixing_duration": fix["web-browser"]}}],
     )
+    tgt = c.get("target", "h0")
+    if tgt == "h0-noapps":
+        del h0["applications"]  # a server with services only (its pre-installed nmap is uninstalled during set-up)
+    sw_kw = {"start_up_duration": 0, "shut_down_duration": 0}
+    if tgt == "sw":
+        sw_kw = {"start_up_duration": c["up"], "shut_down_duration": c["down"]}
     if c["nscan_via"] == "node":
-        h0["node_scan_duration"] = c["nscan"]
+        if tgt == "sw":
+            sw_kw["node_scan_duration"] = c["nscan"]
+        else:
+            h0["node_scan_duration"] = c["nscan"]
     h1 = computer(
         H1, "192.168.1.11", kind="server", start_up_duration=0, shut_down_duration=0,
         services=[{"type": "ftp-server"}],
@@ -118,7 +127,7 @@ def build_cfg(c: Dict) -> Dict:
             {"type": "ransomware-script", "options": {"server_ip": "192.168.1.10", "payload": "ENCRYPT"}},
         ],
     )
-    nodes = [switch("sw", 8, start_up_duration=0, shut_down_duration=0), h0, h1]
+    nodes = [switch("sw", 8, **sw_kw), h0, h1]
     links = [link("sw", 1, H0, 1), link("sw", 2, H1, 1)]
     defaults = {"folder_scan_duration": c["fscan"], "folder_restore_duration": c["frestore"]}
     if c["nscan_via"] == "defaults":
@@ -138,22 +147,23 @@ def expected_durations(c: Dict) -> Dict[str, Any]:
     return {"fix": fix, "fscan": c["fscan"], "frestore": c["frestore"], "nscan": c["nscan"]}
 
 
-def form(op: List) -> List:
+def form(op: List, tgt: str = H0) -> List:
     k = op[0]
+    N0 = ["network", "node", tgt]
     am = _am()
     if k == "sw":
         _, name, verb = op
         typ = "application" if name in APPS else "service"
         if verb == "compromise":
             return N0 + [typ, name, "compromise"]
-        return am.form_request(f"node-{typ}-{verb}", {"node_name": H0, f"{typ}_name": name})
+        return am.form_request(f"node-{typ}-{verb}", {"node_name": tgt, f"{typ}_name": name})
     if k == "file":
         _, fo, fi, verb = op
-        return am.form_request(f"node-file-{verb}", {"node_name": H0, "folder_name": fo, "file_name": fi})
+        return am.form_request(f"node-file-{verb}", {"node_name": tgt, "folder_name": fo, "file_name": fi})
     if k == "folder":
         _, fo, verb = op
         if verb in ("scan", "repair", "restore"):
-            return am.form_request(f"node-folder-{verb}", {"node_name": H0, "folder_name": fo})
+            return am.form_request(f"node-folder-{verb}", {"node_name": tgt, "folder_name": fo})
         if verb == "corrupt":
             return N0 + ["file_system", "folder", fo, "corrupt"]
         if verb == "delete":
@@ -161,9 +171,9 @@ def form(op: List) -> List:
         if verb == "fsrestore":
             return N0 + ["file_system", "restore", "folder", fo]
     if k == "os_scan":
-        return am.form_request("node-os-scan", {"node_name": H0})
+        return am.form_request("node-os-scan", {"node_name": tgt})
     if k == "power":
-        return am.form_request(f"node-{op[1]}", {"node_name": H0})
+        return am.form_request(f"node-{op[1]}", {"node_name": tgt})
     if k == "db":
         app = "data-manipulation-bot" if op[1] == "DELETE" else "ransomware-script"
         return am.form_request("node-application-execute", {"node_name": H1, "application_name": app})
@@ -336,8 +346,20 @@ def run_case(case: Dict) -> CaseResult:
     c = case["cfg"]
     game = new_game(build_cfg(c))
     sim = game.simulation
-    node = sim.network.get_node_by_hostname(H0)
+    target = c.get("target", "h0")
+    tname = "sw" if target == "sw" else H0
+    N0 = ["network", "node", tname]
+    node = sim.network.get_node_by_hostname(tname)
     fs = node.file_system
+    if target == "h0-noapps":
+        # "host after uninstalling every application": the documented node-application-remove action
+        for app in list(node.applications.values()):
+            r = sim.apply_request(_am().form_request("node-application-remove",
+                                                     {"node_name": tname, "application_name": app.name}))
+            if r.status != "success":
+                raise RuntimeError(f"set-up: uninstall {app.name} -> {r.status} {r.data}")
+    if target != "h0" and node.applications:
+        raise RuntimeError(f"set-up: {tname} still has applications {[a.name for a in node.applications.values()]}")
 
     # set-up (documented create requests for absent names); a failure here is a harness problem, not a violation
     for req in (
@@ -403,7 +425,7 @@ def run_case(case: Dict) -> CaseResult:
                 break
             kt += 1
         else:
-            req = form(op)
+            req = form(op, tname)
             try:
                 status = sim.apply_request(req).status
             except Exception as e:
@@ -418,6 +440,8 @@ def run_case(case: Dict) -> CaseResult:
             p.new = False
         created: Optional[Pending] = None
         if ok:
+            if ot.startswith("sw-") and ("sw", op[1]) not in cur:
+                raise RuntimeError(f"{when}: request succeeded for software that is not on {tname}")
             if ot == "sw-fix":
                 pend = [p for p in pend if not (p.kind == "fix" and p.target == op[1])]
                 created = Pending("fix", op[1], fixd[op[1]], kt)
@@ -827,6 +851,7 @@ def run_case(case: Dict) -> CaseResult:
         res.label(f"completed:{k}")
     for k in sorted(dur_seen):
         res.label(f"timed-op:{k}")
+    res.label(f"target:{target}")
     res.label(f"len<{(len(ops) // 10 + 1) * 10}")
     return res
 
@@ -845,6 +870,7 @@ def cfg_strategy():
         "frestore": d,
         "nscan": d,
         "nscan_via": st.sampled_from(["node", "defaults"]),
+        "target": st.sampled_from(["h0", "h0", "h0", "h0-noapps", "sw"]),
         "up": st.sampled_from([0, 1, 2]),
         "down": st.sampled_from([0, 1, 2]),
     })
@@ -983,6 +1009,16 @@ def enumerated_cases():
                                                ["os_scan"]]),
             "nscan-defaults": (base_cfg_case(nscan=d, nscan_via="defaults"),
                                [["sw", "web-browser", "compromise"], ["os_scan"]]),
+            # whole-node scan on nodes WITHOUT applications: a server with services only whose pre-installed
+            # application is uninstalled, and a switch (ships with no software) holding files
+            "nscan-noapps": (base_cfg_case(nscan=d, target="h0-noapps"),
+                             [["sw", "dns-server", "compromise"], ["file", "fa", "y.txt", "corrupt"], ["os_scan"]]),
+            "nscan-switch": (base_cfg_case(nscan=d, target="sw"),
+                             [["file", "fa", "y.txt", "corrupt"], ["file", "root", "r.txt", "corrupt"], ["os_scan"]]),
+            "nscan-switch-defaults": (base_cfg_case(nscan=d, nscan_via="defaults", target="sw"),
+                                      [["folder", "fa", "corrupt"], ["os_scan"]]),
+            "fscan-switch": (base_cfg_case(fscan=d, target="sw"),
+                             [["file", "fa", "x.txt", "corrupt"], ["folder", "fa", "scan"]]),
             "restore": (base_cfg_case(frestore=d), [["folder", "fa", "corrupt"], ["folder", "fa", "restore"]]),
             "fsrestore": (base_cfg_case(frestore=d), [["file", "fa", "x.txt", "corrupt"], ["folder", "fa", "delete"],
                                                       ["folder", "fa", "fsrestore"]]),
@@ -1020,7 +1056,7 @@ def worker(ctx: Ctx):
     if ctx.idx == 0:
         ctx.extra["enumerated_family_cases"] = len(cases)
         ctx.extra["enumerated_family"] = (
-            "17 programs (service/application/defaults/option+defaults fix, restore with a scan completing inside it, database restore after delete, folder scan on created/root/database folder, node scan "
+            "21 programs (node scan on a server without applications and on a switch, service/application/defaults/option+defaults fix, restore with a scan completing inside it, database restore after delete, folder scan on created/root/database folder, node scan "
             "via node key / defaults key, folder restore, fs-level restore of a deleted folder) x durations "
             "{0,1,2,3,5}: straight line, and with each of 14 interfering events at every tick position"
             + ("" if ctx.tier == "thorough" else " (quick: every straight-line case, every 2nd interference case)")
